@@ -66,4 +66,39 @@ CHECKS = {
                 "differentially; num_traits semantics as modelled; i128/u128 included, isize/usize as 64-bit.",
         "technique": "Coq proof (bit-lane decomposition, loop invariant, all admissible buffering answers) + model/implementation correspondence",
     },
+    "C01": {
+        "text": "Coq theorems (Props/C01.v): a simulation theorem proved once by induction over parser programs — every concrete run "
+                "of any program on the DeferredReader model, under every read schedule (short reads, Interrupted), every chunk size >= 1 "
+                "and BufReader leftovers, is an admissible abstract run on the stream its source delivers; hence every program whose "
+                "abstract runs agree returns the same result however the bytes arrive (instance proved for the SWAR scanner, whose "
+                "fast/cold choice depends on buffering). PARTIAL: answer-insensitivity of the whole DIMACS parser programs is not yet "
+                "a theorem; it is validated by running the extracted programs and the real parsers on the same re-chunked inputs (items, "
+                "error location, read calls), and AIGER/BTOR2 by the one-shot-vs-rechunked oracle on the implementation.",
+        "design_ref": "DESIGN.md 2/C01",
+        "note": "Trusted: Coq kernel; extraction; hand transcription of text.rs/token.rs/cnf.rs/wcnf.rs/gcnf.rs/sat_solver_log.rs into "
+                "parser programs (validated differentially); Read contract; AIGER/BTOR2 parsers not modelled (oracle only).",
+        "technique": "Coq proof (simulation by induction on programs over the reader invariant) + model/implementation correspondence + oracle",
+    },
+    "C14": {
+        "text": "Coq theorems (Props/C14.v): in the reader and writer models every unsafe access is a checked operation yielding UB when "
+                "outside the Vec length/capacity; proved: no history over the safe API produces it — including advance/advance_with_buf "
+                "beyond the window with the panic caught and the history continued, sources that claim more bytes than their slice (the "
+                "load-bearing assert), every sink — and after any history the exposed slice has the buffered length and is the "
+                "delivered-unconsumed data. The decimal text of every integer fits the MAX_LEN bytes reserved before the raw-pointer "
+                "write. Model tied to the code by the rd/wr/tx streams with caught panics (debug assertions on) and release builds.",
+        "design_ref": "DESIGN.md 2/C14",
+        "note": "Trusted: as C02/C11. Partial: the theorem is about index arithmetic relative to the modelled allocation; real memory "
+                "effects, aliasing rules and Vec internals are outside the model. Defect D3 was found by this check and fixed.",
+        "technique": "Coq proof (safety invariant over histories with caught panics) + model/implementation correspondence",
+    },
+    "C10": {
+        "text": "Coq theorem (Props/C10.v): for every history whose chunk size stays <= C and whose window (look-ahead for one item) "
+                "stays <= W, the reader's buffer never exceeds 3C + W bytes, independent of the number of bytes consumed (induction over "
+                "histories, using the realign threshold). The link to real heap use is measured: cnf and btor2 inputs generated on the "
+                "fly are streamed under a counting allocator and the peak live heap is compared with 8*chunk + 16*item + 64 KiB.",
+        "design_ref": "DESIGN.md 2/C10",
+        "note": "Trusted: as C02. Partial: Vec growth policy, shrink_to_fit and allocator overhead are runtime behaviour (measured); the "
+                "parsers' per-item buffers are measured, not modelled.",
+        "technique": "Coq proof (buffer-size invariant over histories) + measured streaming memory",
+    },
 }
